@@ -53,20 +53,12 @@ Qed.
 (* ------------------------------------------------------------------ cwrap_agrees *)
 (* the plumbing read from the code (destination, forwarded C++ expression, argument order) is the plumbing of the
    driver's independent C++-API mirror -- EXCEPT for the listed deviations *)
-Definition known_deviations : list string := ["basic_set_universalset"].
+Definition known_deviations : list string := [].
+Theorem cwrap_agrees : forallb (agrees cwrap_table) expected_table = true.
+Proof. vm_compute. reflexivity. Qed.
 Theorem cwrap_agrees_guarded :
   forallb (fun e => agrees cwrap_table e || mem_str (ex_name e) known_deviations) expected_table = true.
 Proof. vm_compute. reflexivity. Qed.
-
-Theorem cwrap_agrees_refuted :
-  exists e f, In e expected_table /\ find_cfun cwrap_table (ex_name e) = Some f /\ row_agrees f e = false /\
-    ex_name e = "basic_set_universalset" /\ cf_tmpl f = "emptyset()" /\ ex_tmpl e = "universalset()".
-Proof.
-  exists (mk_expected "basic_set_universalset" (OParam 0) "universalset()" []).
-  destruct (find_cfun cwrap_table "basic_set_universalset") as [f|] eqn:E; [|vm_compute in E; discriminate].
-  exists f. split; [vm_compute; tauto|]. split; [exact E|].
-  vm_compute in E. inversion E; subst. vm_compute. repeat split; reflexivity.
-Qed.
 
 (* lifted: for every expected row outside the deviations, a call whose guards and type preconditions hold returns
    success with the C++ API value (the expected callee on the expected argument order) in the expected destination,
@@ -77,6 +69,7 @@ Theorem table_agrees_sem : forall core e f k st actuals,
   actuals_match (cf_params f) actuals = true ->
   all_hold guard_holds st actuals (cf_guards f) = true ->
   all_hold class_holds st actuals (cf_casts f) = true ->
+  zguard_fires actuals (cf_zguards f) = None ->
   match spec_call core e k st actuals with
   | Some (Ok v) =>
       match spec_store e st actuals v with
@@ -89,7 +82,7 @@ Theorem table_agrees_sem : forall core e f k st actuals,
   | _ => fst (fwd_step core f k st actuals) = Unmodelled
   end.
 Proof.
-  intros core e f k st actuals Hin Hd Hf Ha Hg Hc.
+  intros core e f k st actuals Hin Hd Hf Ha Hg Hc Hz.
   apply agrees_sem; auto.
   pose proof cwrap_agrees_guarded as G. rewrite forallb_forall in G. specialize (G e Hin).
   rewrite Hd in G. rewrite orb_false_r in G. unfold agrees in G. rewrite Hf in G. exact G.
@@ -109,11 +102,15 @@ Theorem hand_model_current :
   forallb (fun p => match find_cfun cwrap_table (fst p) with Some f => cf_fp f =? snd p | None => false end)
           hand_modelled = true.
 Proof. vm_compute. reflexivity. Qed.
+Theorem cwrapper_macros_current :
+  (cwrapper_begin_text =? modelled_cwrapper_begin) && (cwrapper_end_text =? modelled_cwrapper_end) = true.
+Proof. vm_compute. reflexivity. Qed.
 
 (* ------------------------------------------------------------------ sanity of the generated table *)
 Theorem table_well_formed :
   forallb (fun f => forallb (fun i => (i <? length (cf_params f))%nat) (cf_args f)
                     && match cf_out f with OParam i => (i <? length (cf_params f))%nat | _ => true end
-                    && forallb (fun g => (snd g <? length (cf_params f))%nat) (cf_guards f ++ cf_casts f))
+                    && forallb (fun g => (snd g <? length (cf_params f))%nat) (cf_guards f ++ cf_casts f)
+                    && forallb (fun g => (fst g <? length (cf_params f))%nat) (cf_zguards f))
           cwrap_table = true.
 Proof. vm_compute. reflexivity. Qed.
